@@ -266,6 +266,9 @@ RULE = ("small: every track of 2..4 fixes on the corners of a 3x4 rectangle (int
         "Non-trivial: at least 3 fixes (an interior fix exists) and legs or time steps not all equal, so that off-by-one "
         "variants of the formulas give different numbers. Distinct = hash of the case.")
 
+# coverage-guided stage of the thorough tier (vt/fuzz.py): sub-check -> libFuzzer executions
+FUZZ = {'tracks': 10000}
+
 SUBCHECKS = [
     SubCheck("small", _run, enum=enum_small, rule="complete small scope on a 3-4-5 rectangle", qshards=4),
     SubCheck("tracks", _run, strategy=strat_track, quick=8000, thorough=160000, qshards=8),
